@@ -1,11 +1,12 @@
 /-
   generate_lingo of every AST class (drxtract/lingosrc/ast/*.py) and codegen/lingo.py.
 
-  Python's generators write to the tree in four places (inventory: Drx/Gen/Mutations.lean):
+  Python's generators write to the tree in three places (inventory: Drx/Gen/Mutations.lean):
     Statement.generate_lingo   code.use_parenthesis = False      (when the code is a CallFunction)
     Symbol.generate_lingo      self.use_hash = False             (name in KNOWN_SYMBOLS)
-    CallFunction.gv_as_sym     operands[last] = GlobalVariable   (list function whose first argument is a Symbol)
     generate_lingo_code        f.global_vars = sorted(...)
+  (CallFunction.gv_as_sym used to be a fourth; since the F100 repair it returns a corrected copy of the argument list:
+   `gvAsSym`, folded into `lingoStrs gv` / `jsStrs gv`.)
   Each write happens immediately before the only read of the written field in the same method, so the model is split into
     `lingo …`      the text, reading every such field through the write that precedes it, and
     `afterLingo …` the tree as a completed generation leaves it.
@@ -33,7 +34,7 @@ def isListFn (fname : Name) : R Bool := do
   let nm ← fname.asStr
   pure (listHas PropTables.listFunctions (pyLower nm))
 
-/-- `CallFunction.gv_as_sym` as a function on the `parameters` node -/
+/-- `CallFunction.gv_as_sym`: the parameters node to print -/
 def gvAsSym (fname : Name) (params : Node) : R Node :=
   match params with
   | .none => .ok .none
@@ -77,8 +78,10 @@ mutual
     | .sym name _ useHash, _ => symLingo name useHash
     | .unary op _ x, ind => do
       let t ← lingo false x ind
-      let o : Str := if op = S "minus" then S "-" else op ++ S " "
-      pure (.s (o ++ t.str))
+      if op = S "minus" then
+        -- '--' starts a comment in Lingo: an operand text that starts with '-' is parenthesised
+        pure (.s (S "-" ++ (if startsWith t.str (S "-") then S "(" ++ t.str ++ S ")" else t.str)))
+      else pure (.s (op ++ S " " ++ t.str))
     | .binary op _ l r, ind =>
       if op = S "assign" then do
         let lt ← lingo false l ind
@@ -148,9 +151,8 @@ mutual
       pure (.s (indentOf ind ++ ts ++ S "\n"))
     | .callFn name _ .none _ _ _, _ => .ok name
     | .callFn name _ (.loadList _ _ ops) useParen _ _, ind =>
-      match ops with
-      | [] => .ok name
-      | ops => do
+      if ops.isEmpty then .ok name
+      else do
         let gv ← isListFn name
         if name == Name.s (S "sound") then do
           let modif ← (pyGet ops (-1))
@@ -266,12 +268,8 @@ mutual
     | .toDict p x => .toDict p (afterLingo x)
     | .stmt p code => .stmt p (clearParen (afterLingo code))
     | .callFn name p (.loadList ln lp ops) up it wr =>
-      match ops with
-      | [] => .callFn name p (.loadList ln lp []) up it wr
-      | ops =>
-        let gv := match isListFn name with | .ok b => b | .error _ => false
-        let ops1 := if name == Name.s (S "sound") then afterLingoButLast ops else afterLingoList ops
-        .callFn name p (.loadList ln lp (if gv then mapLast symToGv ops1 else ops1)) up it wr
+      -- `sound`: the modifier (last operand) is read by name only, never generated
+      .callFn name p (.loadList ln lp (if name == Name.s (S "sound") then afterLingoButLast ops else afterLingoList ops)) up it wr
     | .callFn name p params up it wr => .callFn name p params up it wr
     | .callMethod n p o ps => .callMethod n p (afterLingo o) (afterLingo ps)
     | .repeat_ p e cond stmts type start varname sign =>
